@@ -510,43 +510,27 @@ func (s *sharedEntryAttributes) remainsToExist() bool {
 func (s *sharedEntryAttributes) getRegularDeletes(deletes []DeleteEntry, aggregate bool) ([]DeleteEntry, error) {
 	var err error
 
-	if s.shouldDelete() && !s.IsRoot() && len(s.GetSchemaKeys()) == 0 {
+	// (a key level that is not the last one never is deleted as a whole, that would be a
+	// path with partial keys, which addresses all the entries sharing these key values)
+	if s.schema != nil && s.shouldDelete() && !s.IsRoot() && len(s.GetSchemaKeys()) == 0 {
 		return append(deletes, s), nil
 	}
 
 	// deletes for the child elements of choice cases that are not (or no longer) the active case.
-	// They are removed as a whole if they still exist on the device (have a running value) or
-	// belong to the case that was the active one according to the intended store.
-	switch s.schema.GetSchema().(type) {
-	case *sdcpb.SchemaElem_Container:
-		for _, v := range s.choicesResolvers {
-			if v.getBestCaseName() == "" {
-				continue
-			}
-			oldBestCaseName := v.getOldBestCaseName()
-			for _, elem := range v.GetSkipElements() {
-				inactiveChild, exists := s.childs.GetEntry(elem)
-				if exists && len(inactiveChild.GetByOwner(RunningIntentName, []*LeafEntry{})) > 0 {
-					deletes = append(deletes, inactiveChild)
-					continue
-				}
-				if oldBestCaseName == "" || v.elementToCaseMapping[elem] != oldBestCaseName {
-					continue
-				}
-				if exists {
-					deletes = append(deletes, inactiveChild)
-					continue
-				}
-				// the child is not loaded into the tree, but just considered from the treecontext
-				// cache for the choice/case resolution, so the DeleteEntryImpl struct is created
-				path, err := s.SdcpbPath()
-				if err != nil {
-					return nil, err
-				}
-				path.Elem = append(path.Elem, &sdcpb.PathElem{Name: elem})
-				deletes = append(deletes, NewDeleteEntryImpl(path, append(s.Path(), elem)))
-			}
+	for _, elem := range s.inactiveChoiceCaseElementsToDelete() {
+		inactiveChild, exists := s.childs.GetEntry(elem)
+		if exists {
+			deletes = append(deletes, inactiveChild)
+			continue
 		}
+		// the child is not loaded into the tree, but just considered from the treecontext
+		// cache for the choice/case resolution, so the DeleteEntryImpl struct is created
+		path, err := s.SdcpbPath()
+		if err != nil {
+			return nil, err
+		}
+		path.Elem = append(path.Elem, &sdcpb.PathElem{Name: elem})
+		deletes = append(deletes, NewDeleteEntryImpl(path, append(s.Path(), elem)))
 	}
 
 	// continue with the childs of the active cases
@@ -1475,8 +1459,15 @@ func (s *sharedEntryAttributes) getKeyName() (string, error) {
 	// only Contaieners have keys, so check for that
 	switch sch := ancestorWithSchema.GetSchema().GetSchema().(type) {
 	case *sdcpb.SchemaElem_Container:
+		// The key levels of the tree follow the order of the sorted key names (that is how the
+		// path slices are built, see utils.ToStrings), not the order of the key statement.
+		keyNames := make([]string, 0, len(sch.Container.GetKeys()))
+		for _, k := range sch.Container.GetKeys() {
+			keyNames = append(keyNames, k.Name)
+		}
+		sort.Strings(keyNames)
 		// return the name of the levelUp-1 key
-		return sch.Container.GetKeys()[levelUp-1].Name, nil
+		return keyNames[levelUp-1], nil
 	}
 
 	// we probably called the function on a LeafList or LeafEntry which is not a valid call to be made.
